@@ -425,12 +425,15 @@ fn run_one_total(class: &str, input: &str, rep: &mut Report) {
 fn total_case(case: u64, rng: &mut Rng, rep: &mut Report, thorough: bool) {
     let (class, inputs) = gen_total_inputs(case, rng, thorough);
     rep.count(&format!("class:{class}"), inputs.len() as u64);
+    let t0 = Instant::now();
     for (i, input) in inputs.iter().enumerate() {
         run_one_total(class, input, rep);
+        rep.count(&format!("class_ms:{class}"), 0);
         if case < 40 && i == 0 {
             rep.sample(json!({"stream": "total", "class": class, "input": input.chars().take(120).collect::<String>()}));
         }
     }
+    rep.count(&format!("class_ms:{class}"), t0.elapsed().as_millis() as u64);
 }
 
 // ---------------------------------------------------------------------------------------------
@@ -972,7 +975,10 @@ fn main() {
     if want("sem") {
         rep.merge(run_cases(&ctx, "sem", n_sem, |c, rng, rep| sem_case(c, rng, rep, per_corpus)));
     }
-    let n_total = ctx.scale(20_000, 2_000_000) as u64;
+    let n_total = std::env::var("C16_TOTAL_N")
+        .ok()
+        .and_then(|v| v.parse().ok())
+        .unwrap_or(ctx.scale(20_000, 2_000_000) as u64);
     if want("total") {
         rep.merge(run_cases(&ctx, "total", n_total, |c, rng, rep| total_case(c, rng, rep, thorough)));
     }
